@@ -1,6 +1,7 @@
 package props
 
 import (
+	"bytes"
 	"context"
 	"errors"
 	"fmt"
@@ -201,6 +202,21 @@ func c18Percent(c *ev.Collector) {
 		// structured long ones
 		for _, s := range []string{strings.Repeat("%", 300), strings.Repeat("é", 200), strings.Repeat("a", 600) + "%", "%" + strings.Repeat("b", 600), strings.Repeat("\x00\xff", 300), strings.Repeat("%25", 100), "100%", "%4", "%41"} {
 			check([]byte(s))
+		}
+	}
+	// length sweep: every length up to 1100 with the one byte that needs escaping first, last, everywhere, nowhere
+	for l := 4; l <= 1100; l++ {
+		if l%shards != shard {
+			continue
+		}
+		plain := bytes.Repeat([]byte{'a'}, l)
+		check(plain)
+		for _, esc := range []byte{'%', '\n', 0xe9} {
+			first, last, all := append([]byte{}, plain...), append([]byte{}, plain...), bytes.Repeat([]byte{esc}, l)
+			first[0], last[l-1] = esc, esc
+			check(first)
+			check(last)
+			check(all)
 		}
 	}
 	for a := 0; a < 256; a++ {
